@@ -36,9 +36,16 @@ try:
 finally:
     subprocess.run(["git", "-C", "/repo", "worktree", "remove", "--force", wt], capture_output=True)
 checks = {}
+SCRATCH = os.environ.get("EVAL_SCRATCH") == "1"     # run the checks against a patched scratch worktree (VERIF_REPO) instead of /repo
 if res.get("confirmed"):
-    assert subprocess.run(["git", "-C", "/repo", "status", "--porcelain"], capture_output=True, text=True).stdout.strip() == "", "/repo not clean"
-    subprocess.run(["git", "-C", "/repo", "apply", os.path.join(dst, "patch.diff")], check=True)
+    if SCRATCH:
+        swt = "/tmp/evalseed_apply_%d" % os.getpid()
+        subprocess.run(["git", "-C", "/repo", "worktree", "add", "-q", "--detach", swt, "HEAD"], check=True)
+        subprocess.run(["git", "-C", swt, "apply", os.path.join(dst, "patch.diff")], check=True)
+        os.environ["VERIF_REPO"] = swt
+    else:
+        assert subprocess.run(["git", "-C", "/repo", "status", "--porcelain"], capture_output=True, text=True).stdout.strip() == "", "/repo not clean"
+        subprocess.run(["git", "-C", "/repo", "apply", os.path.join(dst, "patch.diff")], check=True)
     try:
         for p in props:
             t0 = time.time()
@@ -56,7 +63,10 @@ if res.get("confirmed"):
                     break
             checks[p] = {"exit": rc, "lines": [l[:200] for l in lines][:6], "first_replay_kind": kind, "secs": round(time.time() - t0, 1)}
     finally:
-        subprocess.run(["git", "-C", "/repo", "checkout", "--", "."], check=True)
+        if SCRATCH:
+            subprocess.run(["git", "-C", "/repo", "worktree", "remove", "--force", swt], capture_output=True)
+        else:
+            subprocess.run(["git", "-C", "/repo", "checkout", "--", "."], check=True)
 meta.update({"confirmation": res, "checks_against_it": checks,
              "ran": "tools/eval_seed.py: scratch worktree (apply, pytest, demo with/without), then git -C /repo apply, ./check <prop> --tier quick, git -C /repo checkout -- ."})
 json.dump(meta, open(os.path.join(dst, "meta.json"), "w"), indent=1)
